@@ -165,6 +165,10 @@ func pqConfigs() []pqengine.Config {
 		{PageSize: 1024, MaxSize: 512 * 1024, WriteBuffer: 8192},
 		{PageSize: 4096, MaxSize: 0, WriteBuffer: 0},
 		{PageSize: 4096, MaxSize: 2 << 20, WriteBuffer: 64 * 1024},
+		// the queue embedded with its own transaction options: the automatic checkpoint of the overwrite mapping
+		// runs inside the commits that rewrite the queue header / the tail page (seeded change C06k)
+		{PageSize: 1024, MaxSize: 0, WriteBuffer: 2048, WALLimit: 1},
+		{PageSize: 1024, MaxSize: 512 * 1024, WriteBuffer: 0, WALLimit: 2},
 	}
 }
 
